@@ -47,6 +47,9 @@ CLAIMED = {
  "C15": ("deterministic simulation: real MQTT Broker (read/write loops, sessions, resend ticker on the virtual clock, topic manager) listening on the simulated network, raw MQTT clients with scripted PUBACK behaviour (prompt, omitted k times, delayed, duplicated, stop reading), publishes through the real HTTP publish handler; subscriber enumeration order is a seeded choice (map-range rewriting)",
          "Seeded search over subscriber populations with overlapping filters and mixed QoS x message QoS x enumeration orders x ack behaviours x bursts that overflow the outbound queue x interleavings; every publish must reach every eligible client (QoS0 loss only with a provably full queue), none ineligible, un-acked QoS1 packets are retransmitted until acked and not after, client QoS1 PUBLISHes reach the backend pipeline and are acked with the same id.",
          "DESIGN.md §6 C15", "storage is the repo's mock storage; QoS2, retained messages, wills and takeover are not generated (takeover is C16)."),
+ "C16": ("deterministic simulation: real MQTT Broker (handleConn, read/write loops, sessions, session manager, topic manager, resend tickers on the virtual clock) on the simulated network with 1-4 scripted connections contending for one client id; the instant at which a superseded connection's read loop learns of its end (reset, half-close, silence until keep-alive, late packet) is placed before/between/after the successor's steps by simnet and the scheduler; simulated session store with latency, errors and delete watch",
+         "Seeded search over orders of connect / subscribe / drop / reconnect / takeover with both cleanSession values x teardown instants x pipelined packets x store latency/errors x interleavings (gates at locks, goroutine starts, selects, timers); after settling, the surviving connection's session, subscriptions (white-box and by probe publishes) and registration must be what the cleanSession rules dictate; invariants on the broker's client table at every quiescent point; admin delete disconnects.",
+         "DESIGN.md §6 C16", "three genuine findings (own-delete echo, SUBACK/UNSUBACK before the snapshot is persisted) are listed as known in known_findings.txt; storage is a simulated etcd-like store."),
  "C17": ("deterministic simulation: real LimitListener+Semaphore under a real http.Server, the whole real httpserver runtime reconfigured through its event channel, and the real MQTT Broker, all on the simulated network with concurrent connects/closes/resets, SetMaxConnection sequences and aborted handshakes; open-connection counting oracle evaluated at every quiescent instant",
          "Seeded search over client populations x connect/idle/close/reset patterns x cap changes (grow, shrink below usage, back-to-back) x interleavings; open <= cap whenever no adjustment is pending, no accept at or above an applied cap, no established connection dropped by a shrink, released capacity is reusable (final phase admits exactly cap fresh connections), MQTT connects beyond the cap are refused with server-unavailable.",
          "DESIGN.md §6 C17", "a takeover of a connected id at the cap is accepted both ways (statement silent)."),
